@@ -124,6 +124,13 @@ def show(v, depth=3, width=700):
     return repr(v)[:width]
 
 
+def _has_abs(r):
+    try:
+        return any(alg.TABLE.atoms[k].kind == 'fn' and alg.TABLE.atoms[k].name == 'abs' for k in r.atoms(deep=True))
+    except RecursionError:
+        return False
+
+
 def compare_values(a, b):
     """'equal' | 'different' | 'unknown' for arbitrary evaluator values"""
     if isinstance(a, CallV):
@@ -131,6 +138,9 @@ def compare_values(a, b):
     if isinstance(b, CallV):
         b = b.rat
     if isinstance(a, Rat) and isinstance(b, Rat):
+        if _has_abs(a) or _has_abs(b):
+            # |u|^2 is u^2: an absolute value that is only squared is no generator of its own
+            a, b = alg.even_abs(a), alg.even_abs(b)
         if has_unknown(a) or has_unknown(b):
             r = alg.decide_equal(a, b)
             return 'equal' if r == 'equal' else 'unknown'
@@ -289,9 +299,17 @@ def check_equal(rep, rule, key, where, actual, expected, what, undecided_note=''
                 wit = alg.numeric_witness(a_, e_, _DefaultRanges())
             except RecursionError:
                 wit = None
+            if wit is None:
+                # a second look with a finer threshold: a slip in a high-order term of a series moves the value by 1e-10 .. 1e-9 of its size
+                # (millimetres in a distance of thousands of kilometres).  Double evaluation of well-conditioned forms is good to 1e-14;
+                # the deviation has to show at half of ten sample points
+                try:
+                    wit = _fine_witness(a_, e_)
+                except RecursionError:
+                    wit = None
             if wit is not None:
                 pt, va, vb = wit
-                rep.violated(rule, key, where, what + ': the code and the reference formula take different values, e.g. at %s: %.12g instead of %.12g' % (
+                rep.violated(rule, key, where, what + ': the code and the reference formula take different values, e.g. at %s: %.15g instead of %.15g' % (
                     ', '.join('%s=%.5g' % kv for kv in sorted(pt.items())[:8]), va.real, vb.real), expected=show(expected), actual=show(actual))
                 return 'different'
             note = conditioning_probe(a_, e_)
@@ -305,6 +323,35 @@ def check_equal(rep, rule, key, where, actual, expected, what, undecided_note=''
         rep.undecided(rule, key, where, what + ': forms differ but not definitely' + why + undecided_note,
                       expected=show(expected, 2, 300), actual=show(actual, 2, 300))
     return r
+
+
+def _fine_witness(a, b, rel=1e-11, trials=10, need=5):
+    ids = sorted(set(a.atoms(deep=True)) | set(b.atoms(deep=True)))
+    syms = [alg.TABLE.atoms[k] for k in ids if alg.TABLE.atoms[k].kind == 'sym' and alg.TABLE.atoms[k].name != 'pi']
+    rng = _DefaultRanges()
+    if any(s_.name not in rng for s_ in syms):
+        return None
+    shared = sorted(alg._shared_opaque(a, b))
+    hits = 0
+    found = None
+    for t in range(trials):
+        env = {}
+        for j, s_ in enumerate(syms):
+            lo, hi = rng[s_.name]
+            frac = ((t + 1) * 0.6180339887498949 + (j + 1) * 0.7548776662466927) % 1.0
+            env[s_.id] = lo + (hi - lo) * frac
+        for j, k in enumerate(shared):
+            env[k] = 0.3 + 0.6 * (((t + 1) * 0.5545497 + (j + 1) * 0.3819660) % 1.0)
+        try:
+            va, vb = alg.evalf(a, env), alg.evalf(b, env)
+        except (alg.NotEvaluable, ZeroDivisionError, OverflowError, ValueError):
+            continue
+        scale = max(abs(va), abs(vb), 1e-30)
+        if abs(va - vb) > rel * scale:
+            hits += 1
+            if found is None:
+                found = (dict((s_.name, env[s_.id]) for s_ in syms), va, vb)
+    return found if hits >= need else None
 
 
 ROUNDING_NOISE = 1e-14     # relative; a few dozen ulps: what evaluating the formulas in double precision moves anyway
